@@ -1,13 +1,22 @@
 (** C16 – Tabs are always expanded before reaching the terminal.
-    Only statements; every proof is [exact <lemma from IndProofs.TabsProofs>].
-    [run bar_init ops] is the model of a ProgressBar (OnceLock caches explicit) executing the
-    public calls [ops]; its second component lists, per call, the bar lines drawn or the text a
-    getter returned.  [ref_run] is the cache-free reference: texts are kept as given and
-    expanded from the ORIGINAL with the CURRENT tab width whenever they are looked at. *)
+    Only statements; every proof is [exact <lemma from IndProofs.TabsProofs>].  All the
+    vocabulary of the statements is defined in IndModel.Tabs (model/Tabs.v).
+
+    [run E bar_init ops] is the model of a ProgressBar (OnceLock caches explicit) executing the
+    public calls [ops] in the environment [E]; its second component lists, per call, the text
+    lines and the BAR LINES handed to the terminal, or the text a getter returned.  The model
+    renders EVERY template: literals, msg / prefix / custom keys, wide_msg, wide_bar, bar,
+    spinner and the numeric keys, each with alignment, width, truncation, style and alt style.
+    [E : env] supplies what the crate computes from things outside this model (column width of
+    a string, terminal width, text of the numeric / time keys, geometry of a bar); it is
+    universally quantified everywhere.  [ref_run] is the cache-free reference: texts are kept as
+    given and expanded from the ORIGINAL with the CURRENT tab width whenever they are looked at. *)
 From IndModel Require Import Base Tabs.
+From IndModel Require Padded.
 From IndGen Require Import Constants.
 From IndProofs Require Import TabsProofs.
 From Coq Require Import NArith List.
+From Coq Require String.
 Import ListNotations.
 Open Scope N_scope.
 
@@ -15,45 +24,81 @@ Open Scope N_scope.
     TabExpandedString reachable from the bar (message, prefix, template literals) carries the
     bar's tab width and an empty cache or the expansion of its original at that width; the
     style's tab width (used by TabRewriter for custom keys) is the bar's. *)
-Theorem C16_inv : forall ops : list op, inv (fst (run bar_init ops)).
+Theorem C16_inv : forall (E : env) (ops : list op), inv (fst (run E bar_init ops)).
 Proof. exact inv_reachable. Qed.
 Print Assumptions C16_inv.
 
-(** Refinement: for every history, every draw and every getter result of the cached model is
-    what the cache-free reference produces – changing the width before or after the style or
-    the texts, in any order, re-expands all of them consistently. *)
-Theorem C16_refines : forall ops : list op,
-  snd (run bar_init ops) = snd (ref_run rbar_init ops).
+(** Refinement: for every history and every template, every draw (all its bar lines) and every
+    getter result of the cached model is what the cache-free reference produces – changing the
+    width before or after the style or the texts, in any order, re-expands all of them
+    consistently, also inside sized / aligned / truncated fields and inside wide_msg. *)
+Theorem C16_refines : forall (E : env) (ops : list op),
+  snd (run E bar_init ops) = snd (ref_run E rbar_init ops).
 Proof. exact refines. Qed.
 Print Assumptions C16_refines.
 
-(** No TAB in any bar line of any draw (message, prefix, template literals, custom-key
-    output), nor in what message()/prefix() return – every history, every width including 0.
-    ([op_ok]: the text given to println, which is not a bar line, is itself TAB-free.) *)
-Theorem C16_no_tab : forall ops : list op,
-  Forall op_ok ops -> Forall out_notab (snd (run bar_init ops)).
+(** Sentence 1 of the property read literally ("no TAB ever reaches the terminal inside a bar
+    line") is FALSE for the faithful model: a TAB inside a tick string is copied into the bar
+    line as it is (style.rs:275; the same holds for progress characters, style.rs:698-708).
+    The witness is replayed on the implementation by the harness corpus
+    (class 'tab-in-tick-or-progress-chars'). *)
+Theorem C16_no_tab_refuted :
+  exists (E : env) (ops : list op), env_ok E /\ ~ Forall out_notab (snd (run E bar_init ops)).
+Proof.
+  exists (chk_env 40 [] []),
+         [SetStyleNew [] (mkglyphs [[9]; [120]] [[35]; [45]] 1) [TPh (bare KSpinner)]; Tick].
+  split; [intros d id w H; exact H|].
+  vm_compute. intros H. inversion H as [|? ? _ H1]; subst. inversion H1 as [|? ? H2 _]; subst.
+  inversion H2 as [|? ? H3 _]; subst. apply H3. left. reflexivity.
+Qed.
+Print Assumptions C16_no_tab_refuted.
+
+(** Outside that class the sentence holds for EVERY template: no TAB in any bar line of any
+    draw - message, prefix, template literals, custom-key output, bare or inside a sized /
+    aligned / truncated / styled field or inside wide_msg - nor in what message()/prefix()
+    return; every history, every tab width including 0, every environment.
+    [op_ok]: the tick strings and progress characters of every style installed are TAB-free
+    (the complement of the class above) and so are the escape sequences console::Style writes;
+    [env_ok]: so is the text of the numeric / time keys.  The text given to println is not a bar
+    line and is unconstrained. *)
+Theorem C16_no_tab_outside_known : forall (E : env) (ops : list op),
+  env_ok E -> Forall op_ok ops -> Forall out_notab (snd (run E bar_init ops)).
 Proof. exact no_tab. Qed.
-Print Assumptions C16_no_tab.
+Print Assumptions C16_no_tab_outside_known.
+
+(** What format_state does to a placeholder's text keeps it TAB-free, whatever the column
+    widths are: padding / truncation of a sized field (PaddedStringDisplay), trimming, and the
+    expansion of wide_msg into the rest of the line. *)
+Theorem C16_layout_keeps_tab_free :
+  (forall (cols : text -> N) (s : text) (w : N) (a : Padded.align) (tr : bool),
+     notab s -> notab (pad_text cols s w a tr))
+  /\ (forall s : text, notab s -> notab (trim_end s))
+  /\ (forall (c : rctx) (a : Padded.align) (emsg cur : text),
+        notab emsg -> notab cur -> notab (wide_msg_line c a emsg cur)).
+Proof. exact (conj pad_text_notab (conj trim_end_notab wide_msg_line_notab)). Qed.
+Print Assumptions C16_layout_keeps_tab_free.
 
 (** message() / prefix() after any history return the last text given (by set_message,
-    with_message, finish_with_message, abandon_with_message / set_prefix, with_prefix; "" if
-    none) expanded with the last tab width given (8 if none). *)
-Theorem C16_getters : forall ops : list op,
-  snd (run bar_init (ops ++ [GetMessage]))
-  = snd (run bar_init ops) ++ [OGot (expand (last_msg [] ops) (last_tw DEFAULT_TAB_WIDTH ops))]
-  /\ snd (run bar_init (ops ++ [GetPrefix]))
-  = snd (run bar_init ops) ++ [OGot (expand (last_prefix [] ops) (last_tw DEFAULT_TAB_WIDTH ops))].
+    with_message, finish_with_message, abandon_with_message, or the message of the stored
+    finish behaviour when finish_using_style ran / set_prefix, with_prefix; "" if none)
+    expanded with the last tab width given (8 if none). *)
+Theorem C16_getters : forall (E : env) (ops : list op),
+  snd (run E bar_init (ops ++ [GetMessage]))
+  = snd (run E bar_init ops) ++ [OGot (expand (last_msg [] FAndClear ops) (last_tw DEFAULT_TAB_WIDTH ops))]
+  /\ snd (run E bar_init (ops ++ [GetPrefix]))
+  = snd (run E bar_init ops) ++ [OGot (expand (last_prefix [] ops) (last_tw DEFAULT_TAB_WIDTH ops))].
 Proof. exact getters. Qed.
 Print Assumptions C16_getters.
 
-(** A draw after any history is the reference rendering (everything expanded from the
+(** A draw (tick) after any history is the reference rendering (everything expanded from the
     originals) of the state the history defines: last width, last message, last prefix, and
-    the template/keys of the last style. *)
-Theorem C16_draw_consistent : forall ops : list op,
-  let r := fst (ref_run rbar_init ops) in
-  snd (run bar_init (ops ++ [Tick])) = snd (run bar_init ops) ++ [ODraw (ref_render r)]
+    the template / keys / tick strings / progress characters of the last style. *)
+Theorem C16_draw_consistent : forall (E : env) (ops : list op),
+  let r := fst (ref_run E rbar_init ops) in
+  snd (run E bar_init (ops ++ [Tick]))
+  = snd (run E bar_init ops) ++ [ODraw [] (snd (ref_render E (rbar_tick r)))]
   /\ r_tw r = last_tw DEFAULT_TAB_WIDTH ops
-  /\ r_msg r = last_msg [] ops
+  /\ r_msg r = last_msg [] FAndClear ops
   /\ r_prefix r = last_prefix [] ops.
 Proof. exact draw_consistent. Qed.
 Print Assumptions C16_draw_consistent.
@@ -61,43 +106,94 @@ Print Assumptions C16_draw_consistent.
 (** The expansion itself: no TAB is left, a TAB-free text is unchanged, and every TAB became
     exactly [w] characters (spaces, by definition of [expand]). *)
 Theorem C16_expand_spec : forall (s : text) (w : N),
-  ~ In TAB (expand s w)
+  notab (expand s w)
   /\ (has_tab s = false -> expand s w = s)
   /\ (length (expand s w) + ntabs s = length s + ntabs s * N.to_nat w)%nat.
 Proof. intros s w. exact (conj (expand_no_tab s w) (conj (expand_notab s w) (expand_length s w))). Qed.
 Print Assumptions C16_expand_spec.
 
 (** Non-vacuity and sanity. *)
-(* the model's default template is the crate's "{wide_bar} {pos}/{len}", its default width 8 *)
+(* the model's default template is the crate's "{wide_bar} {pos}/{len}", its default width 8;
+   KEY_POS / KEY_LEN are the positions of "pos" / "len" in the crate's key list *)
+Section KeyNames.
+Import String.
 Example C16_default_template_text :
   DEFAULT_BAR_TEMPLATE = [123; 119; 105; 100; 101; 95; 98; 97; 114; 125; 32; 123; 112; 111; 115; 125;
                           47; 123; 108; 101; 110; 125]
-  /\ DEFAULT_TAB_WIDTH = 8.
-Proof. split; reflexivity. Qed.
+  /\ DEFAULT_TAB_WIDTH = 8
+  /\ nth (N.to_nat KEY_POS) FORMAT_KEYS ""%string = "pos"%string
+  /\ nth (N.to_nat KEY_LEN) FORMAT_KEYS ""%string = "len"%string.
+Proof. repeat split; reflexivity. Qed.
+End KeyNames.
+
+(* the environment of the examples: 40 columns, every character one column wide, pos = len = "0" *)
+Definition exE : env := chk_env 40 [] [(KEY_POS, [48]); (KEY_LEN, [48])].
+Example C16_ex_env_ok : env_ok exE.
+Proof.
+  intros d id w. apply has_tab_in. unfold exE, chk_env, e_num, KEY_POS, KEY_LEN. cbn [lookup_or].
+  destruct (id =? 6); [reflexivity|]. destruct (id =? 8); reflexivity.
+Qed.
 
 (* "a<TAB>b{msg}" with message "<TAB>", custom key 0 writing "x<TAB>" *)
-Definition ex_style : op := SetStyleNew [(0, [[120; 9]])] [TLit [97; 9; 98]; TMsg; TKey 0].
+Definition ex_style : op := SetStyleNew [(0, [[120; 9]])] default_glyphs [TLit [97; 9; 98]; TMsg; TKey 0].
+Example C16_ex_style_ok : op_ok ex_style.
+Proof. split; [exact default_glyphs_ok | repeat constructor]. Qed.
 (* width set after everything, between, or first: the same final frame, caches or not *)
 Example C16_ex_orders :
-  let final ops := last (snd (run bar_init (ops ++ [Tick]))) ONone in
+  let final ops := last (snd (run exE bar_init (ops ++ [Tick]))) ONone in
   final [ex_style; SetMessage [9]; Tick; GetMessage; SetTabWidth 2]
-  = ODraw (Some [[97; 32; 32; 98; 32; 32; 120; 32; 32]])
-  /\ final [WithTabWidth 2; WithMessage [9]; ex_style] = ODraw (Some [[97; 32; 32; 98; 32; 32; 120; 32; 32]])
-  /\ final [ex_style; Tick; SaveStyle; SetTabWidth 5; SetMessage [9]; SetStyleNew [] [TMsg]; Tick;
+  = ODraw [] [[97; 32; 32; 98; 32; 32; 120; 32; 32]]
+  /\ final [WithTabWidth 2; WithMessage [9]; ex_style] = ODraw [] [[97; 32; 32; 98; 32; 32; 120; 32; 32]]
+  /\ final [ex_style; Tick; SaveStyle; SetTabWidth 5; SetMessage [9]; SetStyleNew [] default_glyphs [TMsg]; Tick;
             WithTabWidth 2; RestoreStyle]
-     = ODraw (Some [[97; 32; 32; 98; 32; 32; 120; 32; 32]]).
+     = ODraw [] [[97; 32; 32; 98; 32; 32; 120; 32; 32]].
 Proof. repeat split; reflexivity. Qed.
 
 (* tab width 0 removes the tabs *)
 Example C16_ex_width0 :
-  snd (run bar_init [ex_style; SetMessage [9; 109]; SetTabWidth 0; GetMessage])
-  = [ONone; ODraw (Some [[97; 32; 32; 32; 32; 32; 32; 32; 32; 98; 32; 32; 32; 32; 32; 32; 32; 32; 109;
-                          120; 32; 32; 32; 32; 32; 32; 32; 32]]);
-     ODraw (Some [[97; 98; 109; 120]]); OGot [109]].
+  snd (run exE bar_init [ex_style; SetMessage [9; 109]; SetTabWidth 0; GetMessage])
+  = [ONone; ODraw [] [[97; 32; 32; 32; 32; 32; 32; 32; 32; 98; 32; 32; 32; 32; 32; 32; 32; 32; 109;
+                       120; 32; 32; 32; 32; 32; 32; 32; 32]];
+     ODraw [] [[97; 98; 109; 120]]; OGot [109]].
 Proof. reflexivity. Qed.
 
 (* a filled cache that WOULD be stale: the model state after the width change has it cleared *)
 Example C16_ex_cache_cleared :
-  b_msg (fst (run bar_init [SetMessage [9]; GetMessage])) = WithTabs [9] (Some [32;32;32;32;32;32;32;32]) 8
-  /\ b_msg (fst (run bar_init [SetMessage [9]; GetMessage; WithTabWidth 1])) = WithTabs [9] None 1.
+  b_msg (fst (run exE bar_init [SetMessage [9]; GetMessage])) = WithTabs [9] (Some [32;32;32;32;32;32;32;32]) 8
+  /\ b_msg (fst (run exE bar_init [SetMessage [9]; GetMessage; WithTabWidth 1])) = WithTabs [9] None 1.
 Proof. split; reflexivity. Qed.
+
+(* both default templates say something now.  "{wide_bar} {pos}/{len}" at 40 columns, fraction 0:
+   36 background cells, " 0/0"; "{spinner} {msg}" with message "<TAB>a" and tab width 2 *)
+Example C16_ex_default_templates :
+  snd (run exE bar_init [Tick])
+  = [ODraw [] [rep [9617] 36 ++ [32; 48; 47; 48]]]
+  /\ snd (run exE bar_init [SetStyleNew [] default_glyphs [TPh (bare KSpinner); TLit [32]; TMsg];
+                            WithTabWidth 2; SetMessage [9; 97]; Tick; FinishWithMessage [9]])
+     = [ONone; ONone; ODraw [] [[10241; 32; 32; 32; 97]]; ODraw [] [[10241; 32; 32; 32; 97]];
+        ODraw [] [[32; 32; 32; 32]]].
+Proof. split; reflexivity. Qed.
+
+(* the message inside a right-aligned truncating field of 5 columns and inside wide_msg (which
+   gets the 40 - 7 columns left, is padded, and trimmed because it ends the line); tab width 1,
+   then 3 *)
+Example C16_ex_fields :
+  snd (run exE bar_init
+         [SetStyleNew [] default_glyphs
+            [TLit [91]; TPh (mkph KMsg Padded.ARight (Some 5) true None None); TLit [93];
+             TPh (bare KWideMsg)];
+          WithTabWidth 1; SetMessage [97; 9; 98; 9; 99; 100; 101]; SetTabWidth 3])
+  = [ONone; ONone;
+     ODraw [] [[91; 98; 32; 99; 100; 101; 93; 97; 32; 98; 32; 99; 100; 101]];
+     ODraw [] [[91; 32; 32; 99; 100; 101; 93; 97; 32; 32; 32; 98; 32; 32; 32; 99; 100; 101]]].
+Proof. reflexivity. Qed.
+
+(* with_finish(WithMessage) + finish_using_style, the path of a dropped bar; the default finish
+   behaviour hides the bar; println text is written as it is, also with a TAB *)
+Example C16_ex_finish_using_style :
+  snd (run exE bar_init [SetStyleNew [] default_glyphs [TMsg]; WithFinish (FWithMessage [9; 33]);
+                         WithTabWidth 1; FinishUsingStyle; GetMessage; WithFinish FAndClear;
+                         FinishUsingStyle; Println [120; 9; 10; 121; 13; 10]])
+  = [ONone; ONone; ONone; ODraw [] [[32; 33]]; OGot [32; 33]; ONone; ODraw [] [];
+     ODraw [[120; 9]; [121]] []].
+Proof. reflexivity. Qed.
